@@ -45,7 +45,10 @@ func visitorStateReset(r *fw.Run, rule, pkg string, exceptions map[string]string
 	for _, wi := range fw.VisitorWiring(p, pkg) {
 		visitorTypes[wi.Type] = true
 	}
-	type fieldUse struct{ grown, reset bool; grownIn string }
+	type fieldUse struct {
+		grown, reset bool
+		grownIn      string
+	}
 	n := 0
 	var names []string
 	for t := range visitorTypes {
